@@ -18,7 +18,7 @@ ASSUMPTIONS = [
     "G92 re-basing is issued in absolute mode, outside... at an arbitrary op boundary; while KF-G92-XYZ-SIGN is open the re-basing transformation is excluded (counted)",
 ]
 
-ZS = [0.2, 0.4, 0.6, 1.0, 5.0]
+ZS = [0.2, 0.4, 0.6, 1.0, 5.0, 0.21, 0.22]
 
 
 @st.composite
@@ -34,6 +34,15 @@ def cases(draw):
             # arcs are sampled once per *logical* unit (C16): in inches an arc reaching 2 mm into a region is below the sampling
             # resolution, in millimetres it is not - the statement's quantifier (moves, Z changes, extrusions, cycles) has no arcs
             k = "grid"
+        if k == "grid" and xf in ("inch", "relative") and draw(st.integers(0, 9)) == 0:
+            # homing mid-path (a fixed physical point: not part of a translated or re-based path), right after a move to a
+            # point outside every region - no episode is open then (C03: no homing while an episode is open)
+            tx, ty = rnd.target("grid", 0, draw(st.integers(0, 120)), draw(st.integers(0, 120)))
+            tx, ty = round(tx * 2) / 2.0, round(ty * 2) / 2.0
+            if geom.classify(regions, tx, ty, 0.05) == geom.OUT:
+                ops.append(["mv", tx, ty, None, 0])
+                ops.append(["home", draw(st.sampled_from(["", "", " X", " Y", " Z", " X Y", " X0 Y0 Z0"]))])
+            continue
         if k == "arc":
             # I/J arc of 1-3 quarter turns about a centre on the 0.5 mm grid (so the end point is a grid point too)
             di, dj = draw(st.integers(-12, 12)) * 0.5, draw(st.integers(-12, 12)) * 0.5
@@ -58,6 +67,10 @@ def cases(draw):
         # a translation that puts one destination exactly on the origin (logical 0 is a legal coordinate)
         m = moves[draw(st.integers(0, len(moves) - 1))]
         par[0], par[1] = -m[1], -m[2]
+        if draw(st.booleans()):
+            # ... or a few hundredths of a micron beside it (tiny non-zero logical coordinates)
+            par[0] += draw(st.sampled_from([0.00005, -0.00002, 0.0]))
+            par[1] += draw(st.sampled_from([0.00003, -0.00007, 0.0]))
     return {"regions": regions, "ops": ops, "xf": xf, "cut": cut, "par": par, "g90e": False,
             "spell": draw(st.sampled_from(["plain", "plain", "compact", "plus"]))}
 
@@ -130,6 +143,15 @@ def render(case, variant):  # noqa: C901  pylint: disable=too-many-branches,too-
                 w += " E" + gen.fmt(e / u, nd)
             prog.append((idx, "G1" + w))
             x, y, z = nx, ny, nz
+        elif op[0] == "home":
+            prog.append((idx, "G28" + op[1]))
+            axes = [a for a in "XYZ" if a in op[1]] or ["X", "Y", "Z"]
+            if "X" in axes:
+                x = 0.0
+            if "Y" in axes:
+                y = 0.0
+            if "Z" in axes:
+                z = 0.0
         elif op[0] == "arc":
             _, di, dj, q, cw = op
             vx, vy = -di, -dj
